@@ -39,6 +39,7 @@ class Machine:
         self.resources = [None]   # resource id -> object
         self.rkinds = [None]
         self.pid_of = {}          # id(Process) -> pid
+        self.fl = None            # float mode: {"delays": [...], "untils": [...]}; ops carry 1-based indices
         self.defer = None         # Interruption events created inside a resource call: registered after the request itself
         self.explicit_intr = False
 
@@ -74,8 +75,12 @@ class Machine:
             return V("preempted", by, [netlib.ex(c.usage_since) if c.usage_since is not None else -1, rid])
         return V("cause:" + type(c).__name__)
 
+    def T(self, x):
+        """An instant as logged: exact integer, or (float mode) the raw float, replaced by its rank after the run."""
+        return x if self.fl is not None else netlib.ex(x)
+
     def L(self, k, p, ok, v):
-        self.log.append({"k": k, "p": p, "t": netlib.ex(self.env.now), "ok": bool(ok), "v": v})
+        self.log.append({"k": k, "p": p, "t": self.T(self.env.now), "ok": bool(ok), "v": v})
 
     def on_interruption(self):
         """Called (through the patched Interruption.__init__) whenever the kernel has created an Interruption event."""
@@ -115,6 +120,18 @@ class Machine:
         if "sn" in o:
             o["s"] = [look(x) for x in o["sn"]]
         return o
+
+    def final_state(self):
+        out = []
+        for uid in range(1, len(self.events)):
+            ev = self.events[uid]
+            if ev is None or self.kinds[uid] not in USER:
+                out.append({"st": -1, "ok": True, "v": V("none")})
+            elif not ev.triggered:
+                out.append({"st": 0, "ok": True, "v": V("none")})
+            else:
+                out.append({"st": 2 if ev.processed else 1, "ok": bool(ev._ok), "v": self.enc(ev._value)})
+        return out
 
     def exists(self, uid):
         return 1 <= uid < len(self.events)
@@ -172,7 +189,7 @@ class Machine:
             return None
         if k == "timeout" or k == "sleep":
             uid = len(self.events)
-            ev = env.timeout(o["a"], value=("v", uid))
+            ev = env.timeout(self.fl["delays"][o["a"] - 1] if self.fl is not None else o["a"], value=("v", uid))
             self.reg(ev, "to")
             return ev if k == "sleep" else None
         if k == "baddelay":
@@ -200,7 +217,7 @@ class Machine:
             pr = env.process(self.body(pid))
             self.procs[pid] = pr
             self.pid_of[id(pr)] = pid
-            self.reg(pr, "proc")
+            self.reg(pr, "proc", probe=(o["b"] != 1))
             self.reg(None, "init")
             return None
         if k == "interrupt":
@@ -347,7 +364,7 @@ class Machine:
                     self.L("X", 0, False, self.enc(e))
             elif k == "rununtil":
                 try:
-                    r = env.run(until=o["a"])
+                    r = env.run(until=self.fl["untils"][o["a"] - 1] if self.fl is not None else o["a"])
                     self.L("RET", 0, True, self.enc(r))
                 except BaseException as e:  # noqa
                     self.L("X", 0, False, self.enc(e))
@@ -373,7 +390,7 @@ class Machine:
                 try:
                     env.step()
                     pk = env.peek()
-                    self.L("T", 0, True, V("peek", -1 if pk == float("inf") else netlib.ex(pk)))
+                    self.L("T", 0, True, {"k": "peek", "a": -1 if pk == float("inf") else self.T(pk), "s": []})
                 except BaseException as e:  # noqa
                     self.L("X", 0, False, self.enc(e))
             else:
@@ -420,12 +437,40 @@ def patch_until_registration(machine):
     env.run = run
 
 
+def rankify(log, fl):
+    """Float mode: replace every instant by its rank among all float sums that occur, and tabulate t + d (DESIGN 6/C01)."""
+    base = {0.0}
+    for e in log:
+        base.add(float(e["t"]))
+        if e["v"]["k"] == "peek" and e["v"]["a"] != -1:
+            base.add(float(e["v"]["a"]))
+    U = set(base) | {float(u) for u in fl["untils"]}
+    for t in base:
+        for d in fl["delays"]:
+            U.add(t + d)
+    order = sorted(U)
+    rank = {x: i for i, x in enumerate(order)}
+    out = []
+    for e in log:
+        e = dict(e, t=rank[float(e["t"])])
+        if e["v"]["k"] == "peek" and e["v"]["a"] != -1:
+            e["v"] = dict(e["v"], a=rank[float(e["v"]["a"])])
+        out.append(e)
+    plus = [[rank[x + d] if x in base else 0 for d in fl["delays"]] for x in order]
+    return out, {"on": True, "plus": plus, "unt": [rank[float(u)] for u in fl["untils"]]}
+
+
 def run_program(prog, env_factory=None, resources=None):
     m = Machine(prog["scripts"], env_factory, resources)
+    if prog.get("fl"):
+        m.fl = {"delays": list(prog["fl"]["delays"]), "untils": list(prog["fl"]["untils"])}
     patch_until_registration(m)
     try:
         m.run_plan()
-        return {"log": m.log, "names": m.names}
+        if m.fl is not None:
+            log, ftab = rankify(m.log, m.fl)
+            return {"log": log, "names": m.names, "ftab": ftab, "fl": m.fl, "final": m.final_state()}
+        return {"log": m.log, "names": m.names, "final": m.final_state()}
     except BaseException as e:  # noqa  -- interpreter failure, not a kernel verdict
         return {"log": m.log, "driver_error": "%s: %s" % (type(e).__name__, e)}
 
@@ -481,6 +526,8 @@ class Chooser:
             k = rng.choices(kinds, [table[x] for x in kinds])[0]
             c = rng.choice(g.get("catch", [1]))
             if k in ("sleep", "timeout") and room and not (is_top and k == "sleep"):
+                if m.fl is not None:
+                    return {"k": k, "a": rng.randrange(1, len(m.fl["delays"]) + 1), "b": 0, "c": c, "s": []}
                 return {"k": k, "a": rng.choice(g["delays"]), "b": 0, "c": c, "s": []}
             if k == "event" and room:
                 return {"k": k, "a": 0, "b": 0, "c": 0, "s": []}
@@ -489,7 +536,7 @@ class Chooser:
                 if c_:
                     return {"k": k, "a": rng.choice(c_), "b": 0, "c": 0, "s": []}
             if k == "spawn" and len(m.procs) - 1 < g["max_procs"] and len(m.events) + 1 < g["max_events"]:
-                return {"k": k, "a": 0, "b": 0, "c": 0, "s": []}
+                return {"k": k, "a": 0, "b": 1 if rng.random() < g.get("spawn_noprobe", 0.3) else 0, "c": 0, "s": []}
             if k == "interrupt" and room and len(m.procs) > 1:
                 return {"k": k, "a": rng.randrange(1, len(m.procs)), "b": 0, "c": 0, "s": []}
             if k in ("cond", "condnoprobe") and room:
@@ -537,6 +584,12 @@ class Chooser:
                 return {"k": k, "a": 0, "b": 0, "c": 0, "s": []}
             if is_top and k in ("run", "step"):
                 return {"k": k, "a": 0, "b": 0, "c": 0, "s": []}
+            if is_top and k == "rununtil" and room and m.fl is not None:
+                if g["float"].get("until_abs") and rng.random() < 0.7:
+                    m.fl["untils"].append(rng.choice(g["float"]["until_abs"]))       # absolute two-decimal instants
+                else:
+                    m.fl["untils"].append(m.env.now + rng.choice(g["float"]["until_deltas"]))
+                return {"k": k, "a": len(m.fl["untils"]), "b": 0, "c": 0, "s": []}
             if is_top and k == "rununtil" and room:
                 return {"k": k, "a": int(m.env.now) + rng.choice(g.get("until", [0, 1, 1, 2, 3])), "b": 0, "c": 0, "s": []}
             if is_top and k == "runev":
@@ -579,6 +632,8 @@ class GenScript(list):
 def run_generated(g):
     scripts = GenScripts()
     m = Machine(scripts)
+    if g.get("float"):
+        m.fl = {"delays": list(g["float"]["delays"]), "untils": []}
     patch_until_registration(m)
     ch = Chooser(m, g)
     if g.get("resources"):
@@ -600,7 +655,11 @@ def run_generated(g):
             m.scripts = scripts
             m.run_plan_one(i, o)
             i += 1
-        return {"scripts": [list(list.__iter__(s)) for s in scripts], "log": m.log, "gen": g}
+        if m.fl is not None:
+            log, ftab = rankify(m.log, m.fl)
+            return {"scripts": [list(list.__iter__(s)) for s in scripts], "log": log, "gen": g, "ftab": ftab, "fl": m.fl,
+                    "final": m.final_state()}
+        return {"scripts": [list(list.__iter__(s)) for s in scripts], "log": m.log, "gen": g, "final": m.final_state()}
     except BaseException as e:  # noqa
         return {"scripts": [list(list.__iter__(s)) for s in scripts], "log": m.log, "gen": g,
                 "driver_error": "%s: %s" % (type(e).__name__, e)}
